@@ -2,7 +2,7 @@
     normal form.  Statements only. *)
 From Coq Require Import List NArith.
 From MOC.Base Require Import RangeSet.
-From MOC.Model Require Import Qty Query Build Repr CellsSM.
+From MOC.Model Require Import Qty Query Build Repr CellsSM Adapters.
 Import ListNotations.
 Open Scope N_scope.
 
@@ -78,6 +78,20 @@ Example C05_decomposition_nonvacuous :
   ValidMoc Hpx 64 2 [(3 * 2 ^ 54, 21 * 2 ^ 54)].
 Proof. split; [vm_compute; reflexivity|apply valid_mocb_spec; vm_compute; reflexivity]. Qed.
 
+(** the other adapters AS WRITTEN: cells -> cell ranges (consecutive same-depth cells gathered) is
+    lossless for ANY cell list; cells -> ranges (touching cell ranges fused) gives the canonical list
+    of the union, hence the MOC itself from its normal form *)
+Theorem C05_cellranges_lossless : forall l, cells_of_cellranges (cellranges l) = l.
+Proof. exact cellranges_roundtrip. Qed.
+
+Theorem C05_ranges_from_cells_as_written : forall q w d l cells, Canon l -> NormalCells q w d l cells ->
+  ranges_of_cells q w cells = l.
+Proof. exact ranges_of_normal_cells. Qed.
+
+Theorem C05_cells_ranges_roundtrip : forall q w d l, ValidMoc q w d l ->
+  ranges_of_cells q w (moc_cells q w d l) = l.
+Proof. intros q w d l H. apply (ranges_of_normal_cells q w d l); [exact (v_canon _ _ (vm_valid _ _ _ _ H))|exact (moc_cells_normal q w d l H)]. Qed.
+
 Print Assumptions C05_cell_normal_form_checker_exact.
 Print Assumptions C05_nuniq_roundtrip.
 Print Assumptions C05_nuniq_injective.
@@ -89,3 +103,6 @@ Print Assumptions C05_widening_same_set.
 Print Assumptions C05_decomposition_is_normal_form.
 Print Assumptions C05_decomposition_step.
 Print Assumptions C05_decomposition_bounded_fuel_is_normal_form.
+Print Assumptions C05_cellranges_lossless.
+Print Assumptions C05_ranges_from_cells_as_written.
+Print Assumptions C05_cells_ranges_roundtrip.
